@@ -51,7 +51,7 @@ func TestC17Fault(t *testing.T) {
 		c.Cfg.Mem = false
 		c.Cfg.Profile = "C17-fault"
 		c.Cfg.CmpViaSet = true
-		c.Cfg.Callbacks = rapid.IntRange(1, 255).Draw(rt, "callbacks") &^ CbRefCount
+		c.Cfg.Callbacks = (1 + uni(rt, 255, "callbacks")) &^ CbRefCount // uniform over the subsets (rapid.IntRange is biased towards small values)
 		if c.Cfg.Callbacks == 0 {
 			c.Cfg.Callbacks = CbAfterRead
 		}
